@@ -79,6 +79,94 @@ fn main() {
             }
         }
     }
+    // ---- corner vectors (appended; the vectors above are unchanged): identity commitments, upper-half values with large
+    // promises, zero blinding factors in leading positions, corner seeds, in-between parameter values
+    struct Corner {
+        n: usize,
+        m: usize,
+        c: usize,
+        d: usize,
+        values: Vec<u64>,
+        zero_blinding: Vec<(usize, usize)>, // (position, component) forced to zero
+        all_zero_blinding_at: Option<usize>,
+        promises: Vec<Option<u64>>,
+        seed: Option<Scalar>,
+    }
+    let top = |n: usize| if n >= 64 { u64::MAX } else { (1u64 << n) - 1 };
+    let half = |n: usize| 1u64 << (n - 1);
+    let mut corners: Vec<Corner> = Vec::new();
+    for &(n, d) in &[(8usize, 1usize), (64, 3), (16, 2)] {
+        // identity commitment, alone (seeded and not) and inside an aggregate
+        corners.push(Corner { n, m: 1, c: 1, d, values: vec![0], zero_blinding: vec![], all_zero_blinding_at: Some(0), promises: vec![None], seed: None });
+        corners.push(Corner { n, m: 1, c: 2, d, values: vec![0], zero_blinding: vec![], all_zero_blinding_at: Some(0), promises: vec![Some(0)], seed: Some(wide_scalar("corner-seed", n as u64, d as u64)) });
+        corners.push(Corner { n, m: 2, c: 2, d, values: vec![3 & top(n), 0], zero_blinding: vec![], all_zero_blinding_at: Some(1), promises: vec![Some(1), None], seed: None });
+    }
+    for &n in &[2usize, 8, 16, 32, 64] {
+        // upper half of the range, promise in the upper half too / equal to the value
+        corners.push(Corner { n, m: 1, c: 1, d: 1, values: vec![top(n)], zero_blinding: vec![], all_zero_blinding_at: None, promises: vec![Some(half(n))], seed: Some(wide_scalar("corner-seed2", n as u64, 0)) });
+        corners.push(Corner { n, m: 2, c: 4, d: 2, values: vec![half(n), top(n)], zero_blinding: vec![], all_zero_blinding_at: None, promises: vec![Some(half(n)), Some(top(n))], seed: None });
+    }
+    // zero blinding factor before a non-zero one
+    corners.push(Corner { n: 8, m: 1, c: 1, d: 2, values: vec![200], zero_blinding: vec![(0, 0)], all_zero_blinding_at: None, promises: vec![None], seed: Some(wide_scalar("corner-seed3", 0, 0)) });
+    corners.push(Corner { n: 32, m: 2, c: 2, d: 4, values: vec![7, 1 << 31], zero_blinding: vec![(0, 0), (0, 2), (1, 1)], all_zero_blinding_at: None, promises: vec![None, Some(5)], seed: None });
+    // corner seeds
+    for (i, s) in [Scalar::ZERO, Scalar::ONE, -Scalar::ONE].into_iter().enumerate() {
+        corners.push(Corner { n: 4, m: 1, c: 1, d: 1 + 2 * i, values: vec![9], zero_blinding: vec![], all_zero_blinding_at: None, promises: vec![Some(9)], seed: Some(s) });
+    }
+    // in-between parameter values
+    for &(n, m, c, d) in &[(16usize, 4usize, 4usize, 4usize), (32, 8, 8, 5), (16, 16, 16, 3), (32, 1, 32, 4), (2, 32, 32, 2), (16, 1, 1, 5), (32, 2, 4, 3)] {
+        let values: Vec<u64> = (0..m).map(|j| (0xD1B5_4A32_D192_ED03u64.wrapping_mul(j as u64 + 1) ^ (j as u64)) & top(n)).collect();
+        let promises: Vec<Option<u64>> = values.iter().enumerate().map(|(j, v)| if j % 3 == 1 { Some(*v / 2) } else { None }).collect();
+        let seed = if m == 1 { Some(wide_scalar("corner-seed4", n as u64, d as u64)) } else { None };
+        corners.push(Corner { n, m, c, d, values, zero_blinding: vec![], all_zero_blinding_at: None, promises, seed });
+    }
+    for cr in corners {
+        for (label, msg) in ctxs.iter().take(1) {
+            idx += 1;
+            let (n, m, c, d) = (cr.n, cr.m, cr.c, cr.d);
+            let values = cr.values.clone();
+            let mut blindings: Vec<Vec<Scalar>> = (0..m).map(|j| (0..d).map(|k| wide_scalar("vec-blinding", idx * 64 + j as u64, k as u64)).collect()).collect();
+            for (j, k) in &cr.zero_blinding {
+                blindings[*j][*k] = Scalar::ZERO;
+            }
+            if let Some(j) = cr.all_zero_blinding_at {
+                for k in 0..d {
+                    blindings[j][k] = Scalar::ZERO;
+                }
+            }
+            let promises = cr.promises.clone();
+            let seed = cr.seed;
+            let seeded = seed.is_some();
+            let pc = create_pedersen_gens_with_extension_degree(ExtensionDegree::try_from(d).unwrap());
+            let params = RangeParameters::init(n, c, pc).unwrap();
+            let commitments: Vec<_> = values.iter().zip(blindings.iter()).map(|(v, r)| params.pc_gens().commit(&Scalar::from(*v), r).unwrap()).collect();
+            let st = RangeStatement::init(params, commitments.clone(), promises.clone(), seed).unwrap();
+            let wit = RangeWitness::init(values.iter().zip(blindings.iter()).map(|(v, r)| CommitmentOpening::new(*v, r.clone())).collect()).unwrap();
+            let mk = || {
+                let mut t = Transcript::new(label);
+                if let Some(m) = msg {
+                    t.append_message(b"caller", m);
+                }
+                t
+            };
+            let mut rng = ChaCha12Rng::seed_from_u64(idx);
+            let proof = RistrettoRangeProof::prove_with_rng(&mut mk(), &st, &wit, &mut rng).unwrap();
+            let action = if seeded { VerifyAction::RecoverAndVerify } else { VerifyAction::VerifyOnly };
+            let masks = RistrettoRangeProof::verify_batch(&mut [mk()], &[st.clone()], &[proof.clone()], action).unwrap();
+            let mask_hex: Option<Vec<String>> = masks[0].as_ref().map(|m| m.blindings().unwrap().iter().map(|s| hex(s.as_bytes())).collect());
+            proofs.push(json!({
+                "n": n, "m": m, "c": c, "d": d, "corner": true,
+                "ctx_label": String::from_utf8_lossy(label), "ctx_msg": msg.map(|m| String::from_utf8_lossy(m).to_string()),
+                "values": values.iter().map(|v| v.to_string()).collect::<Vec<_>>(),
+                "blindings": blindings.iter().map(|r| r.iter().map(|s| hex(s.as_bytes())).collect::<Vec<_>>()).collect::<Vec<_>>(),
+                "promises": promises.iter().map(|p| p.map(|x| x.to_string())).collect::<Vec<_>>(),
+                "seed": seed.map(|s| hex(s.as_bytes())),
+                "commitments": commitments.iter().map(|c| hex(c.compress().as_bytes())).collect::<Vec<_>>(),
+                "proof": hex(&proof.to_bytes()),
+                "masks": mask_hex,
+            }));
+        }
+    }
     let mut generators = Vec::new();
     for &n in &[1usize, 2, 4, 8, 16, 32, 64] {
         for &c in &[1usize, 2, 4, 8, 16, 32] {
